@@ -7,6 +7,7 @@ package main
 
 import (
 	"bytes"
+	"sync"
 	"crypto"
 	"crypto/sha512"
 	"errors"
@@ -718,5 +719,111 @@ func c17(r *hx.Run) {
 			}
 		}
 	}
+	// (e) a TSM whose digest write stalls for 2.5 s and then completes (the attribute write ends in a TDCALL): the caller
+	// carries on with the same register afterwards.  Once everything is quiet, the digest writes the TSM saw are exactly the
+	// digests of the requests that returned success, in call order — a request that returned an error is not extended later,
+	// behind the back of the requests that followed it (harness-only; the cases run side by side)
+	if !c17Hung {
+		type stallOut struct {
+			line, obs, fail string
+		}
+		idxs := []int{0, 2}
+		if r.Tier == "thorough" {
+			idxs = []int{0, 1, 2, 3}
+		}
+		outs := make([]stallOut, len(idxs))
+		var wg sync.WaitGroup
+		for k, idx := range idxs {
+			dA, dB := hx.RandBytes(rng, 48), hx.RandBytes(rng, 48)
+			wg.Add(1)
+			go func(k, idx int) {
+				defer wg.Done()
+				st := &c17Stall{c17Tsm: newC17Tsm(), stall: 2500 * time.Millisecond}
+				var accepted [][]byte
+				var errs []bool
+				res, stack := hx.GuardTimeout(20*time.Second, func() string {
+					for _, d := range [][]byte{dA, dB} {
+						err := rtmr.ExtendDigestClient(st, idx, d)
+						errs = append(errs, err != nil)
+						if err == nil {
+							accepted = append(accepted, d)
+						}
+					}
+					return ""
+				})
+				time.Sleep(3200 * time.Millisecond) // anything still in flight has landed by now
+				st.mu.Lock()
+				var written [][]byte
+				for _, op := range st.ops {
+					if op.kind == "wf" && op.attr == "digest" {
+						written = append(written, op.data)
+					}
+				}
+				st.mu.Unlock()
+				same := len(written) == len(accepted)
+				for i := 0; same && i < len(written); i++ {
+					same = bytes.Equal(written[i], accepted[i])
+				}
+				o := stallOut{line: fmt.Sprintf("# C17.stall idx=%d", idx), obs: fmt.Sprintf("accepted=%d written=%d in-order=%v", len(accepted), len(written), same)}
+				switch {
+				case res == "panic":
+					o.fail = "crash: " + strings.SplitN(stack, "\n", 2)[0]
+				case res == "hang":
+					o.fail = "the requests did not return within 20 s"
+				case !same:
+					o.fail = fmt.Sprintf("a digest write that stalled for 2.5 s and then completed: the requests returned errors=%v, %d succeeded, but the TSM saw %d digest writes (not the digests of the successful requests in call order): a request that reported failure was extended afterwards", errs, len(accepted), len(written))
+				}
+				outs[k] = o
+			}(k, idx)
+		}
+		wg.Wait()
+		for k, o := range outs {
+			r.Emit(o.line, o.obs, o.fail, fmt.Sprintf("stall|%d", idxs[k]), true, "fault:stall")
+		}
+	}
 	r.Exhaust = true
+}
+
+// c17Stall: the model TSM behind a lock (a library that hands the write to another goroutine must not corrupt the recorder),
+// whose FIRST digest write sleeps before it is carried out.
+type c17Stall struct {
+	*c17Tsm
+	mu      sync.Mutex
+	stall   time.Duration
+	stalled bool
+}
+
+func (s *c17Stall) ReadFile(name string) ([]byte, error) {
+	s.mu.Lock()
+	defer s.mu.Unlock()
+	return s.c17Tsm.ReadFile(name)
+}
+func (s *c17Stall) ReadDir(dirname string) ([]os.DirEntry, error) {
+	s.mu.Lock()
+	defer s.mu.Unlock()
+	return s.c17Tsm.ReadDir(dirname)
+}
+func (s *c17Stall) MkdirTemp(dir, pattern string) (string, error) {
+	s.mu.Lock()
+	defer s.mu.Unlock()
+	return s.c17Tsm.MkdirTemp(dir, pattern)
+}
+func (s *c17Stall) RemoveAll(path string) error {
+	s.mu.Lock()
+	defer s.mu.Unlock()
+	return s.c17Tsm.RemoveAll(path)
+}
+func (s *c17Stall) WriteFile(name string, contents []byte) error {
+	if _, attr, ok := c17Split(name); ok && attr == "digest" {
+		s.mu.Lock()
+		first := !s.stalled
+		s.stalled = true
+		s.mu.Unlock()
+		if first {
+			time.Sleep(s.stall)
+		}
+	}
+	s.mu.Lock()
+	defer s.mu.Unlock()
+	return s.c17Tsm.WriteFile(name, contents)
 }
